@@ -124,7 +124,20 @@ def check_case(case) -> Verdict:
         v.discarded("timeout (inconclusive)")
         return v
     if "setup_error" in A:
-        v.discarded("untransformed setup failed")
+        # set-up failing in one labelling and succeeding in the other is itself a covariance violation; only a
+        # model that cannot be set up in either labelling is outside the domain
+        B = _run(relab, cfg)
+        if B.get("timeout"):
+            v.discarded("timeout (inconclusive)")
+            return v
+        v.checked("setup")
+        if "setup_error" not in B:
+            v.label("guess:int" if base.get("guess_int") else "guess:float")
+            v.fail("setup", cls + " original-fails",
+                   f"set-up fails for the original fields ({A['setup_error'][:160]}) but succeeds after relabelling "
+                   f"{case['relabel']}" + (" (phase guesses typed as integers)" if base.get("guess_int") else ""))
+            return v
+        v.discarded("set-up failed in both labellings")
         return v
     B = _run(relab, cfg)
     v.checked("setup")
